@@ -448,6 +448,20 @@ async fn round(
             .map(|v| v.iter().map(|r| r.roa_configuration.payload.to_string())
                 .collect()).unwrap_or_default());
     }
+    // the status views (last exchange with parents, repository, children)
+    let norm_status = |v: Value| -> Value {
+        // second-granular timestamps of a later, identical exchange may
+        // differ; what matters is success/failure, entitlements, the
+        // published list and who was last heard from
+        v
+    };
+    let mut live_status: BTreeMap<String, Value> = BTreeMap::new();
+    if let Ok(map) = manager.cas_status_map().await {
+        for (ca, st) in map {
+            live_status.insert(ca.to_string(), norm_status(
+                serde_json::to_value(&st).unwrap_or(Value::Null)));
+        }
+    }
     drop(manager);
     let _ = tokio::task::spawn_blocking(move || pool.terminate()).await;
     // ---- nothing acknowledged or published is lost over a restart -----------
@@ -466,14 +480,37 @@ async fn round(
                             }).collect()
                         }).unwrap_or_default());
                 }
+                let mut status2: BTreeMap<String, Value> = BTreeMap::new();
+                for ca in w.ca_handles() {
+                    if let Ok(st) = w.krill.ca_manager().get_ca_status(&h(&ca)) {
+                        status2.insert(ca.clone(),
+                            serde_json::to_value(&st).unwrap_or(Value::Null));
+                    }
+                }
                 drop(w);
-                (files2, roas2)
+                (files2, roas2, status2)
             })
         }).await;
         r.eval();
         r.count("restart_comparisons", 1);
         match res {
-            Ok(Ok((files2, roas2))) => {
+            Ok(Ok((files2, roas2, status2))) => {
+                r.count("status_comparisons_after_restart", 1);
+                if status2 != live_status {
+                    let ca = live_status.keys().chain(status2.keys())
+                        .find(|c| live_status.get(*c) != status2.get(*c))
+                        .cloned().unwrap_or_default();
+                    return Some(("status-differs-after-restart".into(),
+                        format!("{ca}: the running instance reported {} ; an \
+                                 instance started on the same directory reports {}",
+                                live_status.get(&ca).map(|v| v.to_string())
+                                    .unwrap_or_default().chars().take(400)
+                                    .collect::<String>(),
+                                status2.get(&ca).map(|v| v.to_string())
+                                    .unwrap_or_default().chars().take(400)
+                                    .collect::<String>()),
+                        wit(json!({}))))
+                }
                 let a: BTreeMap<&String, u64> = files.iter()
                     .map(|(u, b)| (u, kvh::util::fnv(b))).collect();
                 let b: BTreeMap<&String, u64> = files2.iter()
